@@ -38,7 +38,7 @@ def cases(draw, max_taxa, max_trees, ultrametric=False):
     return {"sample": s, "use_w": draw(st.booleans()),
             "thr_kind": draw(st.sampled_from(["exact", "mid", "float", "default", "low", "one"])),
             "thr_sel": draw(st.integers(0, 50)), "thr_f": draw(st.floats(min_value=0.02, max_value=1.0, allow_nan=False)),
-            "route": draw(st.sampled_from(["treearray", "treelist", "splitdist"])), "summaries_first": draw(st.booleans()),
+            "route": draw(st.sampled_from(["treearray", "treelist", "splitdist"])), "summaries_first": draw(st.booleans()), "pooled": draw(st.integers(0, 3)) == 0,
             "target": {"kind": draw(st.sampled_from(["member", "neighbour", "indep"])), "sel": draw(st.integers(0, 50)),
                        "nni": [draw(st.integers(0, 30)), draw(st.integers(0, 3)), draw(st.integers(0, 3))],
                        "spec": draw(shapes.shapes(min_leaves=s["n"], max_leaves=s["n"], max_arity=3))},
@@ -79,7 +79,7 @@ def make_collection(case, ns, trees, route, ignore_node_ages=True):
             if k == 0:
                 # query and summarise between additions: later answers must not be stale
                 ta.split_distribution.split_frequencies
-                ta.consensus_tree()
+                ta.consensus_tree(support_as_percentages=True, set_support_as_node_label=True, set_edge_lengths="support")
         return ta, ta.split_distribution
     tl = dendropy.TreeList(taxon_namespace=ns)
     for t in trees:
@@ -91,7 +91,7 @@ def make_collection(case, ns, trees, route, ignore_node_ages=True):
         sd.count_splits_on_tree(t)
         if k == 0:
             sd[1]
-            sd.consensus_tree()
+            sd.consensus_tree(support_as_percentages=True, set_support_as_node_label=True, set_edge_lengths="support")
     return sd, sd
 
 
@@ -106,7 +106,23 @@ def check_case(ctx, case):
     ns, taxa, bits, trees = samples.build(sample, rts)
     route = case["route"]
     ultra = bool(sample.get("ultrametric"))
-    coll, sd = make_collection(case, ns, trees, route, ignore_node_ages=not ultra)
+    if case.get("pooled") and route == "treearray" and len(rts) >= 2:
+        # the collection under test is ALSO pooled with a second collection into a third one (and the pool keeps
+        # growing): being an argument of a merge must not change what the collection itself reports
+        h = (len(rts) + 1) // 2
+        others_rts, others = rts[h:], trees[h:]
+        rts, trees = rts[:h], trees[:h]
+        coll, sd = make_collection(case, ns, trees, route, ignore_node_ages=not ultra)
+        other = dendropy.TreeArray(taxon_namespace=ns, use_tree_weights=case["use_w"], ignore_node_ages=not ultra)
+        pool = dendropy.TreeArray(taxon_namespace=ns, use_tree_weights=case["use_w"], ignore_node_ages=not ultra)
+        pool.update(coll)
+        for t in others:
+            other.add_tree(t)
+        pool.update(other)
+        pool.extend(other)
+        ctx.cls("collection_also_pooled_elsewhere")
+    else:
+        coll, sd = make_collection(case, ns, trees, route, ignore_node_ages=not ultra)
     freqs, lens, masks, tot = samples.frequency_table(rts, rooted, use_weights=case["use_w"])
     full = rts[0].leafset()
     fullmask = samples.mask_of(full)
@@ -169,6 +185,10 @@ def check_case(ctx, case):
         skw = {"support_as_percentages": st_["pct"], "set_support_as_node_label": st_["label"], "support_label_decimals": st_["decimals"]}
         if st_["sel"] is not None:
             skw["set_edge_lengths"] = st_["sel"]
+        if not st_["pct"] and not st_["label"] and st_["sel"] is None:
+            # all defaults: ask without any option (options given to EARLIER calls must not leak into this one)
+            skw = {}
+            ctx.cls("summarize:called_without_options")
         if route == "treearray":
             ctx.call("C05.summarize", coll.summarize_splits_on_tree, target, **skw)
         else:
@@ -196,6 +216,8 @@ def check_case(ctx, case):
             if st_["label"]:
                 wl = "{:.{places}f}".format(want, places=st_["decimals"])
                 ctx.check(nd.label == wl, "support_label_text", "C05.support_label", lambda: "label %r want %r" % (nd.label, wl))
+            else:
+                ctx.check(nd.label is None, "no_support_label_unless_requested", "C05.support_label_unrequested", lambda: "label %r" % (nd.label,))
             vals = lens.get(k)
             if vals and i != srt.root and all(v is not None for v in vals):
                 e = nd.edge
